@@ -10,7 +10,7 @@ CONSTANTS
   NodeBitsSet = {2}
   LowSet = {TRUE}
   SeedTimes = {0, 1}
-  MaxCalls = 5
+  MaxCalls = 7
 INVARIANTS TypeOK MaxIsMax NonNeg LimbsOK
 PROPERTIES Contract
 CONSTRAINT Bound
